@@ -175,6 +175,8 @@ def networks(tier, seed):
     yield N("partly-indexed-rate-mod", [(["C", "H"], ["CH"], dict(alpha=1.0, idx=1)), (["CH", "H"], ["C", "H2"], dict(alpha=2.0, idx=2)),
                                         (["H2", "C"], ["CH", "H"], dict(alpha=3.0)), (["CH", "C"], ["C2", "H"], dict(alpha=4.0))],
             rate_modifier={2: "9.5", 3: "7.5"})
+    yield N("rate-mod-zero", [(["C", "H"], ["CH"], dict(alpha=1.0, idx=5)), (["CH", "H"], ["C", "H2"], dict(alpha=2.0, idx=7)),
+                              (["H2", "C"], ["CH", "H"], dict(alpha=3.0, idx=9))], rate_modifier={5: 0.0, 7: "2.0", 9: 0})
     yield N("unindexed-rate-mod", [(["C", "H"], ["CH"], dict(alpha=1.0)), (["CH", "H"], ["C", "H2"], dict(alpha=2.0))],
             rate_modifier={1: "3.5"})
     yield N("ode-mod-1", [(["H", "H"], ["H2"], dict(alpha=1.0)), (["H2", "C"], ["CH", "H"], dict(alpha=2.0))],
@@ -428,6 +430,22 @@ def check_network(label, net, tier, seed, want):
     # never targeted
     _idx0 = [r.idxfromfile for r in net.reactions]
     key_of = list(range(len(_idx0))) if all(i == -1 for i in _idx0) else [(i if i != -1 else None) for i in _idx0]
+    if "C13" in want and ((net.rate_modifier or {}) or (net.ode_modifier or {})):
+        # both kinds of modifier reach the project file unchanged (the path `naunet render` reads them back from)
+        try:
+            import tomlkit
+            from naunet.configuration import NetworkConfiguration
+            chem = tomlkit.loads(NetworkConfiguration("p", net).content)["chemistry"]
+            got_rm = {str(k): (v if isinstance(v, str) else float(v)) for k, v in chem["rate_modifier"].items()}
+            want_rm = {str(k): (v if isinstance(v, str) else float(v)) for k, v in (net.rate_modifier or {}).items()}
+            if got_rm != want_rm:
+                V("C13", f"project-file-rate-modifier: network has {want_rm}, project file holds {got_rm}")
+            got_om = {k: {"factors": [str(x) for x in v["factors"]], "reactants": [list(x) for x in v["reactants"]]} for k, v in chem["ode_modifier"].items()}
+            want_om = {k: {"factors": [str(x) for x in v["factors"]], "reactants": [list(x) for x in v["reactants"]]} for k, v in (net.ode_modifier or {}).items()}
+            if got_om != want_om:
+                V("C13", f"project-file-ode-modifier: network has {want_om}, project file holds {got_om}")
+        except Exception as e:
+            V("C13", f"project-file-raises: {type(e).__name__}: {e}")
     for backend in BACKENDS:
         bname = "/".join(backend[:2])
         try:
